@@ -38,6 +38,7 @@ use self::value::SourcedValue;
 use self::value::Str;
 use self::value::Value;
 
+use crate::lexer::InterpSlot;
 use crate::lexer::Lexer;
 use crate::parser::ExprParser;
 
@@ -497,7 +498,6 @@ fn eval_expr(
                         scopes,
                         s,
                         slots,
-                        (line, col),
                     )
                     .context(InterpolateStringFailed)?;
                 Ok(value::new_str_from_string(v))
@@ -1540,14 +1540,12 @@ fn interpolate_string(
     context: &EvaluationContext,
     scopes: &mut ScopeStack,
     s: &str,
-    interpolation_slots: &Vec<(usize, usize)>,
-    loc: (&usize, &usize),
+    interpolation_slots: &Vec<InterpSlot>,
 )
     -> Result<String>
 {
-    let (line, col) = loc;
-    let new_loc_err = |source, col| {
-        Err(Error::AtLoc{source: Box::new(source), line: *line, col})
+    let new_loc_err = |source, (line, col)| {
+        Err(Error::AtLoc{source: Box::new(source), line, col})
     };
 
     let parser = ExprParser::new();
@@ -1563,7 +1561,7 @@ fn interpolate_string(
     let mut last_slot_end = 0;
 
     for cur_slot in interpolation_slots {
-        let (cur_slot_start, cur_slot_end) = cur_slot;
+        let (cur_slot_start, cur_slot_end, (slot_line, slot_col)) = cur_slot;
         result.push(
             s[byte_at(last_slot_end) .. byte_at(*cur_slot_start)].to_string(),
         );
@@ -1573,7 +1571,9 @@ fn interpolate_string(
         let directive =
             &s[byte_at(cur_slot_start+2) .. byte_at(cur_slot_end-1)];
 
-        let slot_col = col + cur_slot_start + 4;
+        // The location of a slot is that of its first character in the
+        // source, after the delimiter (`${`).
+        let slot_loc = (*slot_line, slot_col + 2);
 
         let mut lexer = Lexer::new(directive);
 
@@ -1587,7 +1587,7 @@ fn interpolate_string(
                         Error::InterpolateStringParseFailed{
                             source_str: format!("{e_line}:{e_col}: {msg}"),
                         },
-                        slot_col,
+                        slot_loc,
                     );
                 },
             };
@@ -1601,7 +1601,7 @@ fn interpolate_string(
                     Error::InterpolateStringEvalExprFailed{
                         source: Box::new(e),
                     },
-                    slot_col,
+                    slot_loc,
                 ),
             };
 
@@ -1614,14 +1614,14 @@ fn interpolate_string(
                             source,
                             descr: "interpolated slot".to_string(),
                         },
-                        slot_col,
+                        slot_loc,
                     ),
                 }
             },
             value => {
                 return new_loc_err(
                     Error::InterpolatedValueNotString{value},
-                    slot_col,
+                    slot_loc,
                 );
             },
         }
